@@ -1,6 +1,6 @@
 (* C09 — Response data is well-formed and denotes exactly the value that was formatted
    Statements only: each theorem is closed by `exact` of a lemma proved in the *_proofs.v files. *)
-From VF Require Import Base Gen_Errors Gen_Consts ErrTable Fmt Lexer Grammar Response Conv Fmt_proofs.
+From VF Require Import Base Gen_Errors Gen_Consts ErrTable Fmt Lexer Grammar Response Conv Fmt_proofs ResponseDecoder ResponseDecoder_proofs.
 Open Scope N_scope.
 
 Theorem C09_int_text : forall n, response_text (RInt n) = (fmt_Z n, None).
@@ -86,6 +86,39 @@ Theorem C09_int_list_rt : forall n ns,
   Val ((IOk (TDec (fmt_Z n))) :: flat_map (fun k => [IOk TDataSeparator; IOk (TDec (fmt_Z k))]) ns).
 Proof. exact int_list_rt. Qed.
 
+Theorem C09_response_decodes : forall units,
+  units <> [] -> Forall (fun ds => ds <> [] /\ forallb decodable ds = true) units ->
+  decode_response (emit_message units) = Some (map (flat_map items_of) units).
+Proof. exact response_decodes. Qed.
+
+Theorem C09_emit_message_text : forall units,
+  units <> [] -> Forall (fun ds => ds <> [] /\ forallb decodable ds = true) units ->
+  emit_message units = intercalate [59] (map unit_text units) ++ [10].
+Proof. exact emit_message_text. Qed.
+
+Theorem C09_unit_count_preserved : forall units,
+  units <> [] -> Forall (fun ds => ds <> [] /\ forallb decodable ds = true) units ->
+  exists dec, decode_response (emit_message units) = Some dec /\ length dec = length units.
+Proof. exact unit_count_preserved. Qed.
+
+Theorem C09_item_count_preserved : forall units,
+  units <> [] -> Forall (fun ds => ds <> [] /\ forallb decodable ds = true) units ->
+  exists dec, decode_response (emit_message units) = Some dec
+    /\ map (@length item) dec = map (fun ds => list_sum (map n_elements ds)) units.
+Proof. exact item_count_preserved. Qed.
+
+Theorem C09_separators_inside_string_are_data : forall s, all_ascii s = true ->
+  decode_response (emit_message [[RStr s]; [RInt 1]]) = Some [[IStr s]; [INum 1]].
+Proof. exact separators_inside_string_are_data. Qed.
+
+Theorem C09_separators_inside_block_are_data : forall p, N.of_nat (length p) < 1000000000 ->
+  decode_response (emit_message [[RBlock p; RInt 2]]) = Some [[IBlock p; INum 2]].
+Proof. exact separators_inside_block_are_data. Qed.
+
+Theorem C09_decode_response_fuel : forall b fuel,
+  (length b < fuel)%nat -> decode_from fuel b = decode_response b.
+Proof. exact decode_response_fuel. Qed.
+
 Print Assumptions C09_int_text.
 Print Assumptions C09_fmt_N_digits.
 Print Assumptions C09_int_dec_rt.
@@ -105,3 +138,10 @@ Print Assumptions C09_error_rt.
 Print Assumptions C09_list_empty.
 Print Assumptions C09_list_text.
 Print Assumptions C09_int_list_rt.
+Print Assumptions C09_response_decodes.
+Print Assumptions C09_emit_message_text.
+Print Assumptions C09_unit_count_preserved.
+Print Assumptions C09_item_count_preserved.
+Print Assumptions C09_separators_inside_string_are_data.
+Print Assumptions C09_separators_inside_block_are_data.
+Print Assumptions C09_decode_response_fuel.
